@@ -41,8 +41,10 @@ VERIF = Path(__file__).resolve().parents[2]
 LEAN = VERIF / "lean" / "EasyNet"
 DRIVER = LEAN / ".lake" / "build" / "bin" / "endriver"
 REPO = Path(os.environ.get("VERIF_REPO", "/repo"))
-EVIDENCE = VERIF / "evidence"
-REPLAYS = VERIF / "replays"
+# (the two overrides are used by tools_seed.py only, so that a run against a deliberately broken scratch tree
+#  does not overwrite the evidence of /repo)
+EVIDENCE = Path(os.environ.get("VERIF_EVIDENCE_DIR") or VERIF / "evidence")
+REPLAYS = Path(os.environ.get("VERIF_REPLAYS_DIR") or VERIF / "replays")
 CORPUS = VERIF / "corpus"
 KNOWN = VERIF / "KNOWN_FINDINGS.txt"
 ALLOWED_AXIOMS = {"propext", "Classical.choice", "Quot.sound"}
@@ -367,7 +369,7 @@ def shrink_case(mod, case: dict, why: str) -> tuple[dict, list[str], str]:
 
 
 def write_replay(prop_id: str, seed: int, n: int, obj: dict) -> Path:
-    REPLAYS.mkdir(exist_ok=True)
+    REPLAYS.mkdir(parents=True, exist_ok=True)
     p = REPLAYS / f"{prop_id}-{seed}-{n}.json"
     p.write_text(json.dumps(obj, indent=1, default=str))
     return p
@@ -470,7 +472,17 @@ def _check(mod, prop_id: str, tier: str, seed: int, t0: float) -> int:
             cases.extend(obj if isinstance(obj, list) else [obj])
     n_corpus = len(cases)
     import itertools
-    evaluate_cases(mod, itertools.chain(cases, mod.generate(rng, tier, 1)), stats, use_model=driver_ok)
+    # change-directed escalation (DESIGN.md section 3): modules whose normalised AST differs from the committed baseline
+    # are not a verdict; they only raise the number of generated cases of this run (the time goes where the code moved)
+    from vlib import asthash
+    changed = asthash.changed_modules(REPO, VERIF / "harness" / "ast_baseline.json")
+    boost = 1
+    if changed:
+        boost = int(os.environ.get("VERIF_CHANGED_BOOST", "3"))
+        notes.append("modules changed w.r.t. the AST baseline (generation boosted x%d): %s" % (boost, ", ".join(changed[:12])))
+    box = time.time() + (150 if tier == "quick" else 1500)
+    evaluate_cases(mod, itertools.chain(cases, mod.generate(rng, tier, boost)), stats, use_model=driver_ok,
+                   deadline=box if boost > 1 else None)
 
     if hasattr(mod, "tie_problems"):
         proof_problems.extend(mod.tie_problems(stats))
@@ -543,6 +555,7 @@ def _check(mod, prop_id: str, tier: str, seed: int, t0: float) -> int:
         "known_findings_hit": stats.known_hit,
         "escalated_cases": escalated,
         "harness_exceptions": stats.errors,
+        "ast_hash_changed": changed if changed is not None else "no baseline",
     }
     if checker_note:
         cov["leanchecker"] = checker_note
@@ -558,7 +571,7 @@ def _check(mod, prop_id: str, tier: str, seed: int, t0: float) -> int:
         "wall_s": round(time.time() - t0, 2),
         "violations": len(violations),
     }
-    EVIDENCE.mkdir(exist_ok=True)
+    EVIDENCE.mkdir(parents=True, exist_ok=True)
     (EVIDENCE / f"{prop_id}.json").write_text(json.dumps(ev, indent=1, default=str))
     for v in violations:
         print(v)
